@@ -32,6 +32,8 @@ MENU = [
     ("a(i) = b(i) * 2.0", {"a": "s", "b": "s"}, "llvm"),                  # ... vs Float(2.0): equal hash
     ("a(i,j) = b(i,j) + c(i,j)", {"a": "ds", "b": "ds", "c": "dd"}, "llvm"),
     ("a(i,j) = b(i,j) + c(i,j)", {"a": "ds", "b": "dd", "c": "ds"}, "llvm"),  # formats swapped between operands
+    ("a(i) = b(i) + c(i) + d(i)", {"a": "s", "b": "s", "c": "s", "d": "s"}, "llvm"),       # same text up to ...
+    ("a(i) = b(i) + (c(i) + d(i))", {"a": "s", "b": "s", "c": "s", "d": "s"}, "llvm"),     # ... the grouping
 ]
 
 
@@ -50,7 +52,8 @@ def structural_key(text, formats, backend):
     for name in orders:
         f = parse_format(formats[name]).unwrap() if name in formats else None
         fm.append((name, None if f is None else (tuple(m.name for m in f.modes), tuple(f.ordering))))
-    return (a.deparse(), tuple(fm), backend)
+    # the tree itself (dataclass repr), not its deparsed text: the text is part of what is being checked
+    return (repr(a.target), repr(a.expression), tuple(fm), backend)
 
 
 def inputs_for(text, formats):
@@ -65,6 +68,9 @@ def inputs_for(text, formats):
         dims = (3,) * order
         cells = list(itertools.product(*[range(d) for d in dims]))
         dok = {c: 1.0 + 0.5 * n + 8 * k for n, c in enumerate(cells) if (sum(c) + k) % 2 == 0}
+        if order == 1 and len(a.expression.variables()) == 3:
+            # grouping-sensitive values: (1e20 + -1e20) + 1.0 != 1e20 + (-1e20 + 1.0)
+            dok[(1,)] = (1e20, -1e20, 1.0)[k]
         out[name] = Tensor.from_dok(dok, dimensions=dims, format=formats[name])
         k += 1
     return out
@@ -194,11 +200,12 @@ def run(tier, seed):
                     nxt.append(nh)
         frontier = nxt
     if tier == "quick":
-        # quick: every state of size <= 3 and the full state, plus all orderings of three colliding requests
-        pick = [h for h in states if len(h) <= 3 or len(h) == n]
+        # quick: every state of size <= 2 and the full state, plus all orderings of colliding groups of requests
+        pick = [h for h in states if len(h) <= 2 or len(h) == n]
     else:
         pick = states
     extra = [list(p) for p in itertools.permutations([0, 1, 2])] + [list(p) for p in itertools.permutations([4, 5, 3])]
+    extra += [[8], [9], [8, 9], [9, 8], [6, 7], [7, 6], [0, 8, 9], [9, 0, 8]]
     pick = pick + [h for h in extra if h not in pick]
     units = [{"histories": pick[k::NPROC]} for k in range(NPROC)]
     units = [u for u in units if u["histories"]]
@@ -280,10 +287,10 @@ def run(tier, seed):
     return run.finish(
         states=tot_states + seeds_run, transitions=total, traces_validated=run.counters["requests served"],
         evaluations=total, distinct_nontrivial=tot_states,
-        rule="(histories) every set of already-served requests from a menu of 8 colliding requests (same assignment "
+        rule="(histories) every set of already-served requests from a menu of 10 colliding requests (same assignment "
              "with formats in another dict order, one mode changed, alpha-renamed twin, 2 vs 2.0, operand formats "
-             "swapped) reached by replay on a cleared cache [quick: all states of size <= 3, the full state and all "
-             "orderings of two colliding triples; thorough: all 256], then every request served in that state through "
+             "swapped, b+c+d vs b+(c+d) on grouping-sensitive values) reached by replay on a cleared cache [quick: all states of size <= 2, the full state and all "
+             "orderings of the colliding groups; thorough: all 1024], then every request served in that state through "
              "generate_code (c, llvm), the CLI, tensor_method and a call: text, CLI output and raw result arrays must "
              "equal those of a fresh cache; a TensorMethod object is shared only by structurally equal problems. "
              "(configurations) fresh interpreters per PYTHONHASHSEED: sha1 of the text of every request of the "
